@@ -336,7 +336,7 @@ def run_loop(ex, s, st, kind, itv):
     idx = fresh_int("i%d" % ordinal) if kind == "for" else None
 
     def extra_of(state, index):
-        e = {"entry": entry, "loop_index": index, "fentry": ex.fentry, "g": ex.case_ghost}
+        e = {"entry": entry, "loop_index": index, "fentry": ex.fentry, "g": ex.case_ghost, "iter": itv}
         return e
 
     # automatic candidates: each havoc'd scalar local / field unchanged w.r.t. entry
